@@ -74,7 +74,72 @@ pub fn explore_programs(prop: &str, setup: &Setup, programs: &[Vec<String>], bou
         }
         let fin = final_view(&w.node, "t");
         let spectator_msgs: Vec<String> = w.spectators.iter_mut().flat_map(|s| s.drain()).collect();
+        let stream = if setup.check_replica { w.node.drain_queues().0 } else { vec![] };
         w.node.remove_dir();
+        if setup.check_replica && !ops.iter().any(|o| o.resp.starts_with("PANIC")) {
+            let rep = replica_view(setup, &stream);
+            if rep != fin {
+                // canonical kind of difference: which of value / version / presence differs
+                let mut kinds: BTreeSet<&str> = BTreeSet::new();
+                for k in fin.keys().chain(rep.keys()) {
+                    match (fin.get(k), rep.get(k)) {
+                        (Some(a), Some(b)) => {
+                            if a.0 != b.0 {
+                                kinds.insert("value");
+                            }
+                            if a.1 != b.1 {
+                                kinds.insert("version");
+                            }
+                        }
+                        (Some(_), None) => {
+                            kinds.insert("key-missing-on-replica");
+                        }
+                        (None, Some(_)) => {
+                            kinds.insert("removed-key-live-on-replica");
+                        }
+                        (None, None) => {}
+                    }
+                }
+                // Is the difference explained by the queue order alone?  If the same messages in
+                // another order reproduce the primary, the commands were queued for replication in
+                // another order than they were applied; otherwise something else is wrong.
+                let mut attributable = false;
+                if stream.len() <= 4 {
+                    let mut idx: Vec<usize> = (0..stream.len()).collect();
+                    let mut perms: Vec<Vec<usize>> = vec![];
+                    fn heap(k: usize, a: &mut Vec<usize>, out: &mut Vec<Vec<usize>>) {
+                        if k <= 1 {
+                            out.push(a.clone());
+                            return;
+                        }
+                        for i in 0..k {
+                            heap(k - 1, a, out);
+                            if k % 2 == 0 {
+                                a.swap(i, k - 1);
+                            } else {
+                                a.swap(0, k - 1);
+                            }
+                        }
+                    }
+                    let n = idx.len();
+                    heap(n, &mut idx, &mut perms);
+                    for p in perms {
+                        if p.iter().enumerate().all(|(i, x)| i == *x) {
+                            continue;
+                        }
+                        let alt: Vec<String> = p.iter().map(|i| stream[*i].clone()).collect();
+                        if replica_view(setup, &alt) == fin {
+                            attributable = true;
+                            break;
+                        }
+                    }
+                }
+                let clause = if attributable { "replication-queue-order-differs-from-apply-order".to_string() } else { format!("replica-differs-from-primary: {}", kinds.into_iter().collect::<Vec<_>>().join("+")) };
+                if seen_clause.insert(clause.clone()) {
+                    found.push(Violation { clause, shape: shape_base.clone(), detail: format!("primary {:?}; a replica fed the primary's replication queue in order {:?} ends with {:?}; schedule {:?}", fin, stream, rep, schedule), replay: json!({"engine":"ilv","property":prop,"programs":programs,"choices":choices,"schedule":schedule}) });
+                }
+            }
+        }
         let oc = Outcome { replies: ops.iter().map(|o| ((o.tid, o.idx), (o.resp.clone(), o.msgs.clone()))).collect(), fin: fin.clone() };
         outcomes.insert(oc);
         if ops.iter().any(|o| o.resp.starts_with("PANIC")) {
@@ -153,7 +218,7 @@ pub fn run_configs(run: &mut Run, prop: &str, setup: &Setup, configs: &[Config],
 }
 
 pub fn setup_c02(nsess: usize) -> Setup {
-    Setup { strategy: "none", init: vec!["set k 1".into(), "set k 1".into()], session_init: (0..nsess).map(|_| vec!["use-db t tok".to_string()]).collect() }
+    Setup { strategy: "none", init: vec!["set k 1".into(), "set k 1".into()], session_init: (0..nsess).map(|_| vec!["use-db t tok".to_string()]).collect(), check_replica: false }
 }
 
 /// base version the clients present = the version published before they start
